@@ -89,7 +89,7 @@ func (d DID) PubKey() (crypto.PubKey, error) {
 		P256:      ecdsaPubKeyUnmarshaler(elliptic.P256()),
 		P384:      ecdsaPubKeyUnmarshaler(elliptic.P384()),
 		P521:      ecdsaPubKeyUnmarshaler(elliptic.P521()),
-		Secp256k1: crypto.UnmarshalSecp256k1PublicKey,
+		Secp256k1: secp256k1PubKeyUnmarshaller,
 		RSA:       rsaPubKeyUnmarshaller,
 	}[d.code]
 	if !ok {
@@ -109,6 +109,9 @@ func (d DID) String() string {
 func ecdsaPubKeyUnmarshaler(curve elliptic.Curve) crypto.PubKeyUnmarshaller {
 	return func(data []byte) (crypto.PubKey, error) {
 		x, y := elliptic.UnmarshalCompressed(curve, data)
+		if x == nil {
+			return nil, fmt.Errorf("invalid compressed public key for curve %s", curve.Params().Name)
+		}
 
 		ecdsaPublicKey := &ecdsa.PublicKey{
 			Curve: curve,
@@ -123,6 +126,16 @@ func ecdsaPubKeyUnmarshaler(curve elliptic.Curve) crypto.PubKeyUnmarshaller {
 
 		return crypto.UnmarshalECDSAPublicKey(pkix)
 	}
+}
+
+// secp256k1PubKeyUnmarshaller only accepts the compressed form mandated by the
+// did:key specification, so that a public key has a single did:key identifier.
+func secp256k1PubKeyUnmarshaller(data []byte) (crypto.PubKey, error) {
+	const compressedLen = 33
+	if len(data) != compressedLen {
+		return nil, fmt.Errorf("secp256k1 public key must be %d bytes (compressed), got %d", compressedLen, len(data))
+	}
+	return crypto.UnmarshalSecp256k1PublicKey(data)
 }
 
 func rsaPubKeyUnmarshaller(data []byte) (crypto.PubKey, error) {
